@@ -161,7 +161,14 @@ def unused_size_zero(ct: Container, rep, rule="unused-size-zero"):
         for c in walk_no_nested(ff.f.node):
             if ct.is_entry_ctor(c):
                 a = ct.entry_ctor_args(c)
-                if a.get("type") is not None and norm(a["type"]) == "BlockType.unusedSlot":
+                ty = a.get("type")
+                if isinstance(ty, ast.Attribute) and isinstance(ty.value, ast.Name) and norm(ty) != "BlockType.unusedSlot":
+                    # a class constant that names the member (`UnusedBlock.type`)
+                    k_ = ct.prog.resolve_class(ct.mod, ty.value.id)
+                    ca_ = ct.prog.class_attr(k_, ty.attr) if k_ is not None and not ct.prog.is_enum(k_) else None
+                    if ca_ is not None:
+                        ty = ca_[1]
+                if ty is not None and norm(ty) == "BlockType.unusedSlot":
                     n += 1
                     sz, fm = a.get("size"), a.get("format")
                     if sz is not None and ct.prog.const_int(ct.mod, sz) == 0 and fm is not None and ct.prog.const_int(ct.mod, fm) == 0:
